@@ -70,7 +70,10 @@ def judge(ctx, reqs, ints, real, cmds, via):
     if real["panic"] or real["rc"] != 0 or len(resp) < n:
         died_at = min(len(resp), n - 1)
         key, site = attribute_death(reqs, died_at, real["panic"], cmds)
-        ctx.fail(key, "session died at request %d (%s): %s" % (died_at, site, (real["panic"] or {}).get("msg", real["stderr"][-200:])),
+        if not real["panic"] and real["rc"] == 0:
+            key = "C09/missing-response"   # the process lived, a request was not answered
+        ctx.fail(key, "%d responses for %d requests; first unanswered request about %d (%s): %s" % (
+            len(resp), n, died_at, site, (real["panic"] or {}).get("msg", real["stderr"][-200:])),
                  requests=[SC.req_json(r) for r in reqs], interrupts=list(ints), via=via,
                  replay="printf '%s\\n' <requests> > h.jsonl; GARDEN_VERIF_INTERRUPT_AT=%s garden reftest-json-session h.jsonl" % ("%s", ",".join(map(str, ints))))
     elif len(resp) > n:
